@@ -109,12 +109,21 @@ type Stats struct {
 	MaxSteps     int
 	Bound        int
 	Capped       bool
+	// NonDeterministic: two runs of the default schedule differed (harness problem, exploration not started)
+	NonDeterministic bool
 }
 
 // Explore enumerates every execution with at most bound deviations from the default schedule (depth first, default-first), calling
 // visit for each; visit returns false to stop.  maxExec caps the number of executions (Capped is then set).
 func Explore(sc *Scenario, bound int, maxExec int64, deadline time.Time, visit func(*Exec) bool) Stats {
 	st := Stats{Bound: bound}
+	// determinism self-check: the default schedule replayed twice must give identical observations and
+	// identical choice points; otherwise some source of nondeterminism is not owned and no verdict is believed
+	a, b := RunOnce(sc, nil, 60*time.Second), RunOnce(sc, nil, 60*time.Second)
+	if a.Err == "" && b.Err == "" && (a.Obs != b.Obs || len(a.Points) != len(b.Points)) {
+		st.NonDeterministic = true
+		return st
+	}
 	var rec func(prefix []int) bool
 	rec = func(prefix []int) bool {
 		if st.Executions >= maxExec || time.Now().After(deadline) {
